@@ -85,6 +85,13 @@ def exhaustive(tier):
         for kind, est in (("bloom", 700000), ("ondisk", 1000000), ("bloom", 9000000 if tier != "quick" else 1100000)):
             yield dict(extra, s="bloom", kind=kind, est=est, fpr=0.01, hash="default", pool=pool, ops=[["add", 0], ["add", 1], ["add", 2]],
                        stat_mask=0, alt_mode="", verify_mask=0)
+        # quotient-filter layouts with a long run followed by several displaced runs (three and more quotients waiting for their
+        # run to start while the table is walked): the iterator over the stored hashes must leave the metadata bits alone
+        for q, auto in ((4, False), (5, True), (4, True)):
+            runs = [(2, 5), (3, 1), (4, 2), (5, 1), (6, 1)]
+            hs = [((qq << (32 - q)) | (r + 1)) for qq, cnt in runs for r in range(cnt)]
+            yield dict(extra, s="qf", q=q, auto=auto, mlf=None if auto else 1.0, mlf_low=None, hash="default", tops=[0, 32], lows=[0, 1], pool=pool,
+                       dense=False, verify_every=0, ops=[["raw_add", h] for h in hs])
         yield dict(extra, s="cbloom", t="cbloom", est=40000, fpr=0.01, hash="default", pool=pool, ops=[["add", 0, 3], ["add", 1, 1], ["remove", 0, 1]],
                    alt_mode="", verify_mask=0)
 
